@@ -4,6 +4,7 @@
 package main
 
 import (
+	"hash/fnv"
 	"bufio"
 	"bytes"
 	"encoding/json"
@@ -497,11 +498,20 @@ func loadFindings() []finding {
 }
 
 func repoRev() string {
-	out, _ := exec.Command("git", "-C", repoRoot, "rev-parse", "--short", "HEAD").Output()
+	root := repoRoot
+	if alt := os.Getenv("VERIF_REPO"); alt != "" {
+		root = alt
+	}
+	out, _ := exec.Command("git", "-C", root, "rev-parse", "--short", "HEAD").Output()
 	rev := strings.TrimSpace(string(out))
-	st, _ := exec.Command("git", "-C", repoRoot, "status", "--porcelain", "--untracked-files=no").Output()
+	st, _ := exec.Command("git", "-C", root, "status", "--porcelain", "--untracked-files=no").Output()
 	if len(bytes.TrimSpace(st)) > 0 {
-		rev += "+dirty"
+		// identify the working tree by its difference from HEAD, so that two
+		// different modified trees are told apart
+		d, _ := exec.Command("git", "-C", root, "diff", "HEAD").Output()
+		h := fnv.New32a()
+		h.Write(d)
+		rev += fmt.Sprintf("+dirty-%08x", h.Sum32())
 	}
 	return rev
 }
